@@ -14,6 +14,9 @@ pattern, or a site that is missing / duplicated, raises TranslatorError (= broke
 """
 
 import ast
+import hashlib
+import json
+import os
 import re
 
 from . import common
@@ -201,43 +204,72 @@ class Walker:
         yield (kind, ast.unparse(s), s.lineno, s.end_lineno, withs, s)
 
 
-def extract_sites(trees, mod_locks):
+def fingerprint(fn):
+  """Hash of a function's code, docstring and position information excluded."""
+  body = [b for b in fn.body if not (isinstance(b, ast.Expr) and isinstance(b.value, ast.Constant))]
+  text = '\n'.join(ast.dump(b, annotate_fields=True, include_attributes=False) for b in body)
+  return hashlib.sha256((ast.dump(fn.args) + text).encode('utf-8')).hexdigest()[:16]
+
+
+def extract_sites(trees, mod_locks, problems, fingerprints):
+  """Best effort: whatever cannot be matched is recorded in `problems` (strict callers raise on the
+  first one) and, for statements touching shared state, as a site of kind `unk:<func>:<line>`."""
   sites = []
   for (rel, cls_name, fn_name), pats in SITES.items():
-    cls = common.find_class(trees[rel], cls_name)
-    fn = common.find_func(cls, fn_name)
+    try:
+      cls = common.find_class(trees[rel], cls_name)
+      fn = common.find_func(cls, fn_name)
+    except TranslatorError as e:
+      problems.append(f'{rel}: {e}')
+      continue
+    fingerprints[f'{rel}:{cls_name}.{fn_name}'] = fingerprint(fn)
     found = {}
+    unknown = []
     shared = re.compile(SHARED[(rel, cls_name, fn_name)])
-    for kind, text, l0, l1, withs, node in Walker(cls_name, mod_locks[rel]).walk(fn.body, []):
+    try:
+      stmts = list(Walker(cls_name, mod_locks[rel]).walk(fn.body, []))
+    except TranslatorError as e:
+      problems.append(f'{rel} {cls_name}.{fn_name}: {e}')
+      continue
+    for kind, text, l0, l1, withs, node in stmts:
       text1 = ' '.join(text.split())
       hit = None
       for site, skind, rx in pats:
         if skind == kind and re.search(rx, text1):
           hit = site
           break
+      rec = {'file': rel, 'cls': cls_name, 'func': fn_name, 'line': l0, 'end': l1,
+             'locks': [l for _, l in withs], '_withs': [id(w) for w, _ in withs], 'stmt': kind}
       if hit is None:
         if kind in ('raise',):
           continue
         if shared.search(text1):
-          raise TranslatorError(
+          problems.append(
               f'{rel}:{l0} {cls_name}.{fn_name}: statement touches shared state but matches no known '
               f'site: `{text1[:90]}`')
+          unknown.append(dict(rec, kind=f'unk:{fn_name}:{l0}', unknown=True, text=text1[:120]))
         continue
       if hit in found:
-        raise TranslatorError(f'{rel}:{l0} {cls_name}.{fn_name}: site {hit} occurs twice')
-      found[hit] = {'kind': hit, 'file': rel, 'cls': cls_name, 'func': fn_name, 'line': l0, 'end': l1,
-                    'locks': [l for _, l in withs], '_withs': [id(w) for w, _ in withs],
-                    'stmt': kind}
+        problems.append(f'{rel}:{l0} {cls_name}.{fn_name}: site {hit} occurs twice')
+        unknown.append(dict(rec, kind=f'unk:{fn_name}:{l0}', unknown=True, text=text1[:120]))
+        continue
+      found[hit] = dict(rec, kind=hit)
     for site, _, _ in pats:
       if site not in found and site not in OPTIONAL:
-        raise TranslatorError(f'{rel} {cls_name}.{fn_name}: site {site} not found (code restructured?)')
-    sites += [found[s] for s, _, _ in pats if s in found]
+        problems.append(f'{rel} {cls_name}.{fn_name}: site {site} not found (code restructured?)')
+    sites += [found[s] for s, _, _ in pats if s in found] + unknown
   return sites
 
 
-def region_atomic(by_kind, kinds, lock):
-  """All sites inside one common `with` on `lock`."""
+def region_atomic(by_kind, kinds, lock, sites=(), func=None):
+  """All sites of the region (and every unrecognised shared statement of the same function) lie
+  inside one common `with` on `lock`; a missing (non-optional) site makes the region non-atomic."""
+  for k in kinds:
+    if k not in by_kind and k not in OPTIONAL:
+      return False
   ss = [by_kind[k] for k in kinds if k in by_kind]
+  if func is not None:
+    ss += [x for x in sites if x.get('unknown') and (x['cls'], x['func']) == func]
   if not ss:
     return False
   common_withs = None
@@ -248,7 +280,7 @@ def region_atomic(by_kind, kinds, lock):
 
 
 def protected(site, locks=('study', 'registry', 'evolution')):
-  return any(l in locks for l in site['locks'])
+  return site is not None and any(l in locks for l in site['locks'])
 
 
 def check_links(trees):
@@ -293,6 +325,32 @@ def check_links(trees):
     raise TranslatorError('next_trial_id: body not recognised')
 
 
+def best_guard(tree):
+  """`self._best_trial = trial` is reached only in the else-branch of `if trial.infeasible:` and only
+  under a test of the form `best is None or (… best…reward < trial…reward)`."""
+  try:
+    fn = common.find_func(common.find_class(tree, '_InMemoryResult'), '_complete_trial')
+  except TranslatorError:
+    return False
+  for n in ast.walk(fn):
+    if isinstance(n, ast.If) and ast.unparse(n.test) == 'trial.infeasible':
+      writes_else = [m for b in n.orelse for m in ast.walk(b)
+                     if isinstance(m, ast.Assign) and ast.unparse(m.targets[0]) == 'self._best_trial']
+      writes_all = [m for m in ast.walk(fn)
+                    if isinstance(m, ast.Assign) and ast.unparse(m.targets[0]) == 'self._best_trial']
+      if not writes_else or len(writes_else) != len(writes_all):
+        return False
+      for b in n.orelse:
+        for m in ast.walk(b):
+          if isinstance(m, ast.If) and any(w in ast.walk(m) for w in writes_else):
+            t = ' '.join(ast.unparse(m.test).split())
+            if re.match(r'^best is None or \(?trial\.final_measurement\.reward is not None and '
+                        r'best\.final_measurement\.reward < trial\.final_measurement\.reward\)?$', t):
+              return True
+      return False
+  return False
+
+
 def evolution_flags(tree, mod_locks):
   cls = common.find_class(tree, 'Evolution')
   lock_kind = instance_lock(cls, '_setup')
@@ -312,66 +370,148 @@ def evolution_flags(tree, mod_locks):
   return lock_kind, out
 
 
-def extract():
+# Functions without sites whose text still matters to the search target (fingerprinted only).
+EXTRA_FP = [
+    ('pyglove/core/tuning/sample.py', None, 'sample'),
+    ('pyglove/core/tuning/protocols.py', 'Feedback', '__call__'),
+    ('pyglove/core/tuning/protocols.py', 'Feedback', 'add_measurement'),
+    ('pyglove/core/tuning/protocols.py', 'Trial', 'get_reward_for_feedback'),
+    (LB, '_InMemoryBackend', '_create_feedback'),
+    (LB, '_InMemoryResult', '__init__'),
+    (LB, '_InMemoryResult', 'get_latest_trial'),
+    (LB, '_InMemoryResult', 'next_trial_id'),
+    (LB, '_InMemoryFeedback', '__init__'),
+    (LB, '_InMemoryFeedback', 'end_loop'),
+    (LB, '_InMemoryFeedback', 'should_stop_early'),
+    (GEN, 'DNAGenerator', 'setup'),
+]
+
+
+def extract(strict=True):
+  """strict: raise TranslatorError on the first unrecognised shape. Non-strict (used by the harness so
+  that a broken tie never stops the failing-input search): best-effort table, conservative flags
+  (a region with a missing / unrecognised shared statement outside its lock is reported non-atomic),
+  `problems` lists everything that was not recognised."""
   trees, mlocks, srcs = {}, {}, {}
   for rel in (LB, GEN, EVO):
     srcs[rel], trees[rel] = common.parse_source(rel)
     mlocks[rel] = module_locks(trees[rel])
-  sites = extract_sites(trees, mlocks)
-  check_links(trees)
+  problems, fingerprints = [], {}
+  sites = extract_sites(trees, mlocks, problems, fingerprints)
+  links_ok = True
+  try:
+    check_links(trees)
+  except TranslatorError as e:
+    problems.append(str(e))
+    links_ok = False
+  for rel, cls_name, fn_name in EXTRA_FP:
+    try:
+      tree = trees[rel] if rel in trees else common.parse_source(rel)[1]
+      node = common.find_class(tree, cls_name) if cls_name else tree
+      fingerprints[f'{rel}:{cls_name or ""}.{fn_name}'] = fingerprint(common.find_func(node, fn_name))
+    except (TranslatorError, OSError) as e:
+      problems.append(f'{rel} {cls_name}.{fn_name}: {e}')
   by_kind = {s['kind']: s for s in sites}
-  study_lock = instance_lock(common.find_class(trees[LB], '_InMemoryResult'))
+  g = by_kind.get
+  study_lock = None
+  try:
+    study_lock = instance_lock(common.find_class(trees[LB], '_InMemoryResult'))
+  except TranslatorError as e:
+    problems.append(str(e))
   if study_lock is None:
-    raise TranslatorError('_InMemoryResult.__init__: self._lock = threading.Lock()/RLock() not found')
-  evo_lock, evo = evolution_flags(trees[EVO], mlocks[EVO])
+    problems.append('_InMemoryResult.__init__: self._lock = threading.Lock()/RLock() not found')
+  try:
+    evo_lock, evo = evolution_flags(trees[EVO], mlocks[EVO])
+    cls = common.find_class(trees[EVO], 'Evolution')
+    for fn_name in ('_propose', '_feedback'):
+      fingerprints[f'{EVO}:Evolution.{fn_name}'] = fingerprint(common.find_func(cls, fn_name))
+  except TranslatorError as e:
+    problems.append(str(e))
+    evo_lock, evo = None, {'_propose': {'atomic': False, 'unprotected_lines': []},
+                           '_feedback': {'atomic': False, 'unprotected_lines': []}}
+
+  def ra(kinds, lock, func):
+    return region_atomic(by_kind, kinds, lock, sites, func)
 
   flags = {
-      'getOrCreateAtomic': region_atomic(by_kind, ['goc.test', 'goc.register', 'goc.fetch'], 'registry'),
+      'getOrCreateAtomic': ra(['goc.test', 'goc.register', 'goc.fetch'], 'registry', ('_InMemoryBackend', '__init__')),
       'algoSetupAtomic': region_atomic(by_kind, ['setup.test', 'setup.do'], 'registry'),
-      'nextReuseAtomic': region_atomic(by_kind, ['next.latest', 'next.status', 'next.create'], 'study'),
-      'createTrialAtomic': region_atomic(
-          by_kind, ['ct.check', 'ct.new', 'ct.append', 'ct.pending', 'ct.latest'], 'study'),
-      'completeTrialAtomic': region_atomic(
-          by_kind, ['cp.completed', 'cp.pending', 'cp.inftest', 'cp.infeasible', 'cp.bestread', 'cp.besttest',
-                    'cp.bestwrite'], 'study'),
-      'doneCheckAndSetAtomic': region_atomic(
-          by_kind, ['done.status', 'done.hasmeas', 'done.set', 'done.final', 'done.feedback', 'done.complete'],
-          'study'),
-      'skipCheckAndSetAtomic': region_atomic(
-          by_kind, ['skip.status', 'skip.set', 'skip.infeasible', 'skip.final', 'skip.complete'], 'study'),
-      'addMeasurementAtomic': region_atomic(by_kind, ['am.status', 'am.append'], 'study'),
+      'nextReuseAtomic': ra(['next.latest', 'next.status', 'next.create'], 'study', ('_InMemoryBackend', 'next')),
+      'createTrialAtomic': ra(['ct.check', 'ct.new', 'ct.append', 'ct.pending', 'ct.latest'], 'study',
+                              ('_InMemoryResult', 'create_trial')),
+      'completeTrialAtomic': ra(['cp.completed', 'cp.pending', 'cp.inftest', 'cp.infeasible', 'cp.bestread',
+                                 'cp.besttest', 'cp.bestwrite'], 'study', ('_InMemoryResult', '_complete_trial')),
+      'doneCheckAndSetAtomic': ra(['done.status', 'done.hasmeas', 'done.set', 'done.final', 'done.feedback',
+                                   'done.complete'], 'study', ('_InMemoryFeedback', 'done')),
+      'skipCheckAndSetAtomic': ra(['skip.status', 'skip.set', 'skip.infeasible', 'skip.final', 'skip.complete'],
+                                  'study', ('_InMemoryFeedback', 'skip')),
+      'addMeasurementAtomic': ra(['am.status', 'am.append'], 'study', ('_InMemoryFeedback', '_add_measurement')),
       # `_num_feedbacks += 1`: under a lock lexically, or reached only through done.feedback -> bf.call
       # (links verified by check_links) which is inside the study lock.
-      'generatorCountersAtomic': protected(by_kind['fb.count']) or (
-          protected(by_kind['done.feedback'], ('study',)) or protected(by_kind['bf.call'], ('study',))),
+      'generatorCountersAtomic': protected(g('fb.count')) or (links_ok and (
+          protected(g('done.feedback'), ('study',)) or protected(g('bf.call'), ('study',)))),
       'evolutionProposeAtomic': evo['_propose']['atomic'],
       'evolutionFeedbackAtomic': evo['_feedback']['atomic'],
   }
   # A region whose only callers (verified by check_links) call it inside the study lock is atomic
   # even if its own `with` is narrowed.
-  if flags['nextReuseAtomic']:
+  if links_ok and flags['nextReuseAtomic'] and 'ct.append' in by_kind:
     flags['createTrialAtomic'] = True
-  if flags['doneCheckAndSetAtomic'] and flags['skipCheckAndSetAtomic']:
+  if links_ok and flags['doneCheckAndSetAtomic'] and flags['skipCheckAndSetAtomic'] and 'cp.completed' in by_kind:
     flags['completeTrialAtomic'] = True
-  propose_counter_atomic = protected(by_kind['pr.count']) or protected(by_kind['ct.new'], ('study',))
+  propose_counter_atomic = protected(g('pr.count')) or (links_ok and protected(g('ct.new'), ('study',)))
   # A study-lock `with` around a call of create_trial / _complete_trial (which take the lock
   # themselves) needs a reentrant lock.
   nested = [k for k in ('next.create', 'done.complete', 'skip.complete')
-            if 'study' in by_kind[k]['locks'] and (
-                'study' in by_kind['ct.append']['locks'] if k == 'next.create'
-                else 'study' in by_kind['cp.completed']['locks'])]
+            if k in by_kind and 'study' in by_kind[k]['locks'] and (
+                protected(g('ct.append'), ('study',)) if k == 'next.create'
+                else protected(g('cp.completed'), ('study',)))]
   nesting_ok = (not nested) or study_lock == 'RLock'
   for s in sites:
     del s['_withs']
-  return {
+  info = {
       'flags': flags,
       'proposeCounterAtomic': propose_counter_atomic,
       'studyLock': study_lock, 'evolutionLock': evo_lock, 'registryLocks': sorted(mlocks[LB]),
       'nestedAcquisitions': nested, 'studyLockNestingOk': nesting_ok,
+      'bestGuardOk': best_guard(trees[LB]),
       'evolution': evo,
       'sites': sites,
+      'problems': problems,
+      'fingerprints': fingerprints,
       'sources': {rel: common.sha(rel) for rel in (LB, GEN, EVO)},
   }
+  if strict and problems:
+    raise TranslatorError(problems[0])
+  return info
+
+
+REF = 'C16LockRef.json'
+
+
+def intact(info):
+  return (not info['problems'] and all(info['flags'].values()) and info['proposeCounterAtomic']
+          and info['studyLockNestingOk'] and info['bestGuardOk'])
+
+
+def changed_functions(info):
+  """Anchored functions whose code differs from the reference table (written the last time the tie
+  was intact): [[file, function name], ...]. What the failing-input search aims at."""
+  path = os.path.join(common.GEN_DIR, REF)
+  if not os.path.exists(path):
+    return []
+  with open(path) as f:
+    ref = json.load(f)
+  out = []
+  cur = info['fingerprints']
+  for key in sorted(set(ref['fingerprints']) | set(cur)):
+    if ref['fingerprints'].get(key) != cur.get(key):
+      rel, qual = key.split(':')
+      out.append([rel, qual.split('.')[-1]])
+  # a changed lock kind shows up in the constructor, not in an anchored function
+  if ref.get('studyLock') != info['studyLock'] or ref.get('registryLocks') != info['registryLocks']:
+    out += [[LB, 'create_trial'], [LB, '_complete_trial'], [LB, 'done'], [LB, 'skip'], [LB, 'next'], [LB, '__init__']]
+  return out
 
 
 FLAG_ORDER = ['getOrCreateAtomic', 'algoSetupAtomic', 'nextReuseAtomic', 'createTrialAtomic',
@@ -380,7 +520,7 @@ FLAG_ORDER = ['getOrCreateAtomic', 'algoSetupAtomic', 'nextReuseAtomic', 'create
 
 
 def run():
-  info = extract()
+  info = extract(strict=False)
   L = []
   L.append('/- GENERATED by translate/t_c16.py (T-LOCK) from')
   L.append(f'   {LB}, {GEN}, {EVO}. Do not edit. -/')
@@ -399,17 +539,31 @@ def run():
   L.append('_complete_trial) happen only if the lock is reentrant. -/')
   L.append(f'def studyLockNestingOkNow : Bool := {common.lean_bool(info["studyLockNestingOk"])}')
   L.append('')
+  L.append('/-- `_best_trial` is written only in the else-branch of `if trial.infeasible` under the test')
+  L.append('`best is None or best.reward < trial.reward` (what `Study.complete` / `Study.better` model). -/')
+  L.append(f'def bestGuardOkNow : Bool := {common.lean_bool(info["bestGuardOk"])}')
+  L.append('')
   L.append('end Pg.C16')
   L.append('')
   sidecar = dict(info)
+  # Written also when the pattern match failed (conservative flags), so that the named obligation
+  # `C16_locks_now` breaks and the driver is compiled with the flags the harness uses.
   changed = common.write_gen('C16Lock', '\n'.join(L), sidecar)
+  if intact(info):
+    common.write_if_changed(
+        os.path.join(common.GEN_DIR, REF),
+        json.dumps({'fingerprints': info['fingerprints'], 'studyLock': info['studyLock'],
+                    'registryLocks': info['registryLocks'], 'sources': info['sources']},
+                   indent=1, sort_keys=True) + '\n')
+  if info['problems']:
+    raise TranslatorError('; '.join(info['problems'][:3]))
   return {'changed': changed, 'sidecar': sidecar}
 
 
 if __name__ == '__main__':
-  import json
-  i = extract()
+  i = extract(strict=False)
   print(json.dumps({k: v for k, v in i.items() if k != 'sites'}, indent=1))
+  print('changed functions:', changed_functions(i))
   for s in i['sites']:
     print('%-16s %s:%d-%d %s.%s locks=%s' % (s['kind'], s['file'].split('/')[-1], s['line'], s['end'], s['cls'],
                                             s['func'], s['locks']))
